@@ -12,7 +12,7 @@ CHECKS = {
         engine="RSX+PYX",
         category="model_checking",
         technique="bounded-exhaustive enumeration of byte strings / k-deviations of skeleton messages at every decoder entry point (Rust harness on the real crate) and end-to-end datagrams per configuration x pending operation",
-        text="Every byte string up to a length bound over full and reduced alphabets, every <=2-deviation and header tampering of ~90 well-formed skeleton messages, at all 29 decoder entry points (incl. OID rendering of decoded results), a grid of short relative-OID names after short absolute names, the privacy decrypt path, and end to end through the real sockets for each configuration and pending operation (deviations applied before sealing so that authentication passes) plus a slice through both public clients; verdict = no unwind, no non-Exception BaseException, no hang, no worker death. Plus one-varbind replies of every datagram size up to the receive limit (sealed / wrong MAC / damaged) per configuration, and binary REALs with 8..17-octet mantissas.",
+        text="Every byte string up to a length bound over full and reduced alphabets, every <=2-deviation and header tampering of ~90 well-formed skeleton messages, at all 29 decoder entry points (incl. OID rendering of decoded results), a grid of short relative-OID names after short absolute names, the privacy decrypt path, and end to end through the real sockets for each configuration and pending operation (deviations applied before sealing so that authentication passes) plus a slice through both public clients; verdict = no unwind, no non-Exception BaseException, no hang, no worker death. Plus one-varbind replies of every datagram size up to the receive limit (sealed / wrong MAC / damaged) per configuration, and binary REALs with 8..17-octet mantissas. Also delivered as they are: every value type with 0..10 content octets, prefixes of Net-SNMP wrapped forms as Opaque/OCTET STRING contents, Reports naming every prefix of the usmStats OIDs.",
         note="bounds stated in evidence; memory safety of the two unsafe-bearing paths is covered by C17's shadow model (+Miri slice); longer strings are not claimed",
         ref="DESIGN.md s.3 C01",
     ),
@@ -28,7 +28,7 @@ CHECKS = {
         engine="PYX",
         category="model_checking",
         technique="exhaustive call/reply history enumeration to a depth bound on real sessions sharing the buffer pool, strict reference decoding of every emitted datagram; loom interleavings of the real pool",
-        text="All histories to depth 3 (quick) / 4 (thorough) over requests of every type, oversize failures, valid/garbage/Report replies and time-outs on pairs of sessions that share the pool; forced boundary id draws; PDU-type policy of both public clients. Every datagram must strictly decode to exactly what the API call asked for.",
+        text="All histories to depth 3 (quick) / 4 (thorough) over requests of every type, oversize failures, valid/garbage/Report replies and time-outs on pairs of sessions that share the pool; forced boundary id draws; PDU-type policy of both public clients. Every datagram must strictly decode to exactly what the API call asked for. Public-client scripts include per-call max_repetitions followed by default calls and get_many with repeated OIDs.",
         note="reference codec is the arbiter of minimality; ids read from the wire; RNG seam optional",
         ref="DESIGN.md s.3 C03",
     ),
@@ -36,7 +36,7 @@ CHECKS = {
         engine="PYX",
         category="model_checking",
         technique="explicit-state breadth-first search of the product {real client socket, lossy/duplicating/reordering/rewriting network}; every client transition executed on the implementation and compared with a reference model over the ids seen on the wire",
-        text="BFS with canonical state de-duplication over K requests and D deviations (duplicate / rewrite one field incl. ids +-2^32 / |2^31, Reports with foreign or non-echoed ids / truncate; loss and reordering free) for v1, v2c, v3 (noAuth and authPriv). Each receive outcome (value of request k, decode error, auth error, still waiting) must equal the model's.",
+        text="BFS with canonical state de-duplication over K requests and D deviations (duplicate / rewrite one field incl. ids +-2^32 / |2^31, Reports with foreign or non-echoed ids / truncate; loss and reordering free) for v1, v2c, v3 (noAuth and authPriv). Each receive outcome (value of request k, decode error, auth error, still waiting) must equal the model's. The alphabet also holds the empty datagram, community + 256 octets, and a looped-back request PDU with a foreign request-id.",
         note="state futures assumed to depend only on the fingerprint; id collisions detected from concrete ids and skipped",
         ref="DESIGN.md s.3 C04",
     ),
@@ -44,7 +44,7 @@ CHECKS = {
         engine="PYX",
         category="model_checking",
         technique="exhaustive enumeration of all MIBs over a small OID universe x bases x methods x caps x versions through both public iterators against an RFC 3416 reference agent",
-        text="Every subset MIB of a 10 (quick) / 15 (thorough) OID universe with multi-octet arcs and out-of-subtree neighbours x 10 bases x {getnext, getbulk(max_rep x cap), fetch} x {v1,v2c,v3} x {sync, async}: yields exactly the entries below the base, once, in order, then stops; request sequence checked. Plus slices: subtree roots ending at every base-128 width boundary, names of 127/128 sub-identifiers and >=128 content octets, equal-length siblings of different arc widths, every max_repetitions 1..300 and the INTEGER width boundaries.",
+        text="Every subset MIB of a 10 (quick) / 15 (thorough) OID universe with multi-octet arcs and out-of-subtree neighbours x 10 bases x {getnext, getbulk(max_rep x cap), fetch} x {v1,v2c,v3} x {sync, async}: yields exactly the entries below the base, once, in order, then stops; request sequence checked. Plus slices: subtree roots ending at every base-128 width boundary, names of 127/128 sub-identifiers and >=128 content octets, equal-length siblings of different arc widths, every max_repetitions 1..300 and the INTEGER width boundaries. Also 400 short rows fetched 254..280 per reply.",
         note="agent = vlib/refagent.py written from RFC 3416; larger universes not claimed",
         ref="DESIGN.md s.3 C05",
     ),
@@ -60,7 +60,7 @@ CHECKS = {
         engine="PYX",
         category="model_checking",
         technique="exhaustive enumeration of replies (0..3 varbinds x 17 value kinds x OID choices) x operations x configurations x drivers against the mapping table of the property",
-        text="Every reply with up to 3 varbinds over all 17 value kinds and OID choices, for get and get_many, on raw sockets for v1/v2c/v3 (plain, authPriv) and through both public clients, plus Reports (echoing / not echoing the request-id) and a silent agent: returned value / exception class must follow the documented table.",
+        text="Every reply with up to 3 varbinds over all 17 value kinds and OID choices, for get and get_many, on raw sockets for v1/v2c/v3 (plain, authPriv) and through both public clients, plus Reports (echoing / not echoing the request-id) and a silent agent: returned value / exception class must follow the documented table. Plus replies naming long / wide OIDs and authentic Reports from a new boot epoch after a large engine time was learnt.",
         note="replies built by the reference encoder and USM sealing",
         ref="DESIGN.md s.3 C07",
     ),
@@ -68,7 +68,7 @@ CHECKS = {
         engine="RSX+PYX",
         category="model_checking",
         technique="exhaustive enumeration of all strings up to a length over an 11-symbol alphabet and of OIDs over boundary arcs; reference parser/encoder as oracle; wire binding through the real sockets",
-        text="All strings of length <=6/7 over {0,1,2,3,4,9,'.','-','+',' ','a'}, all 2..4-arc OIDs over 24 boundary arcs, lengths to 130 arcs: accepted strings are sent as exactly the denoted OID and print back identically, everything else is refused before anything is sent.",
+        text="All strings of length <=6/7 over {0,1,2,3,4,9,'.','-','+',' ','a'}, all 2..4-arc OIDs over 24 boundary arcs, lengths to 130 arcs: accepted strings are sent as exactly the denoted OID and print back identically, everything else is refused before anything is sent. Plus the GetBulk entry, long OIDs crossing 127/128 and 255/256 content octets, strict well-formedness of each request, and follow-up requests of walks over reply OIDs whose encodings grow and shrink.",
         note="'+'-signed / zero-padded numerals that denote a valid OID may be accepted (sent exactly) or refused",
         ref="DESIGN.md s.3 C08",
     ),
@@ -76,7 +76,7 @@ CHECKS = {
         engine="PYX",
         category="model_checking",
         technique="exhaustive enumeration of message shapes x digests x ciphers x key types x pooled-buffer histories; MAC of every captured datagram recomputed with hashlib/hmac",
-        text="Per configuration a size sweep octet by octet across every short/long-form boundary and up to the buffer limit for each boots/time width class; every depth<=2 prefix history on the shared pool x request type; keys installed by constructor and by discovery+set_keys (mixed key types).",
+        text="Per configuration a size sweep octet by octet across every short/long-form boundary and up to the buffer limit for each boots/time width class; every depth<=2 prefix history on the shared pool x request type; keys installed by constructor and by discovery+set_keys (mixed key types). Plus identifiers with >=12 zero octets, refused key installations, and public-client scenarios (shared User object, lost first probe, iterator prepared before session entry).",
         note="HMAC / key derivation by CPython hashlib; key localized to the engine id found in the message",
         ref="DESIGN.md s.3 C09",
     ),
@@ -84,7 +84,7 @@ CHECKS = {
         engine="PYX",
         category="fault_enumeration",
         technique="exhaustive enumeration of the forgery product (MAC class x flags x body x digest x cipher x pending operation) against the real v3 socket",
-        text="Every otherwise-matching reply with MAC in {valid, zero, random, each single bit flipped, short, absent} x auth/priv flags x {GetResponse, Report} x digests x ciphers x operation, and msgFlags/msgData mismatches (priv flag set over a plaintext body), each followed by the valid reply: a response is delivered only if authenticated and (when configured) encrypted.",
+        text="Every otherwise-matching reply with MAC in {valid, zero, random, each single bit flipped, short, absent} x auth/priv flags x {GetResponse, Report} x digests x ciphers x operation, and msgFlags/msgData mismatches (priv flag set over a plaintext body), each followed by the valid reply: a response is delivered only if authenticated and (when configured) encrypted. Plus discovery routes with guessable keys (incl. a Report with an empty engine id), keys installed while a request is in flight, refused set_keys, a signed non-matching message followed by an unauthenticated one within one receive call, the reportable flag, MAC differences that cancel under XOR/sum, and one-octet changes of genuine large replies.",
         note="the pinned code verified no MAC (342 accepted-forgery signatures); repaired by fix 24bd228, so the check is now green; timeliness checks are outside the property",
         ref="DESIGN.md s.3 C10",
     ),
@@ -92,7 +92,7 @@ CHECKS = {
         engine="PYX",
         category="model_checking",
         technique="exhaustive send/receive/time-out history enumeration per cipher on a real session; reference decryption of every msgData",
-        text="All histories to depth 4/5 per {DES,AES}x{MD5,SHA1}; scoped-PDU length sweep over all residues modulo the block size x 9 (auth,priv) key-type pairs x {engine id given, discovered}; boots/time corners; two interleaved privacy sessions; agent-encrypted replies delivered intact.",
+        text="All histories to depth 4/5 per {DES,AES}x{MD5,SHA1}; scoped-PDU length sweep over all residues modulo the block size x 9 (auth,priv) key-type pairs x {engine id given, discovered}; boots/time corners; two interleaved privacy sessions; agent-encrypted replies delivered intact. Plus same-octet keys of different types, encrypted replies up to 3900 octets, slow histories (>1 s of real time between messages) and DES replies of 8m+k ciphertext octets.",
         note="block primitives: pure-Python FIPS code cross-checked with OpenSSL libcrypto; chaining/IV/salt from the RFCs",
         ref="DESIGN.md s.3 C11",
     ),
@@ -100,7 +100,7 @@ CHECKS = {
         engine="PYX",
         category="model_checking",
         technique="exhaustive enumeration of password-length classes x engine-id lengths x digests x key types, as exposed and as installed in sessions; malformed material grid",
-        text="Password lengths 1..130, all 2^k and 2^k+-1 up to 2^20+, beyond 1 MiB; engine ids 0..32 octets; get_master_key/get_localized_key vs hashlib A.2; keys as installed (HMAC validity / decryptability of emitted messages) for password/master/localized incl. mixed auth/priv key types, through raw sockets, discovery+set_keys and the public User classes (padding); malformed sizes and algorithm codes refused with an Exception.",
+        text="Password lengths 1..130, all 2^k and 2^k+-1 up to 2^20+, beyond 1 MiB; engine ids 0..32 octets; get_master_key/get_localized_key vs hashlib A.2; keys as installed (HMAC validity / decryptability of emitted messages) for password/master/localized incl. mixed auth/priv key types, through raw sockets, discovery+set_keys and the public User classes (padding); malformed sizes and algorithm codes refused with an Exception. Plus same-octet keys, refused installations, discovery Reports with a differing contextEngineID, public User with mixed types and off-size keys, and an empty privacy password.",
         note="reference = RFC 3414 A.2 in its 64-octet-chunk formulation (hashlib)",
         ref="DESIGN.md s.3 C12",
     ),
@@ -108,7 +108,7 @@ CHECKS = {
         engine="PYX",
         category="model_checking",
         technique="exhaustive enumeration of agent identity sequences x security configurations x key types x discovery modes with bounded deviations, through raw sockets and both public clients",
-        text="Engine-id lengths, (boots,time) sequences changing between replies (including going backwards), K7 x key types (mixed) x {engine id given, discovered}; deviations: foreign engine id, wrong user/msgID, stray datagram before the genuine Report, lost probe reply; every request must carry the learned engine id and the boots/time of the most recent accepted message with valid MAC/decryptable payload.",
+        text="Engine-id lengths, (boots,time) sequences changing between replies (including going backwards), K7 x key types (mixed) x {engine id given, discovered}; deviations: foreign engine id, wrong user/msgID, stray datagram before the genuine Report, lost probe reply; every request must carry the learned engine id and the boots/time of the most recent accepted message with valid MAC/decryptable payload. Plus differing contextEngineID, slow histories, shared User object, explicit empty engine id argument, iterator prepared before session entry.",
         note="reference USM session model in vlib/reqoracle.py",
         ref="DESIGN.md s.3 C13",
     ),
@@ -116,7 +116,7 @@ CHECKS = {
         engine="PYX",
         category="model_checking",
         technique="exhaustive interleaving enumeration of the leading steps of message runs + long runs with the salt counter forced next to wrap-around; salts read from the wire",
-        text="Every interleaving of 4/5 leading steps over {5 request types, reply with boots change, garbage, time-out, set_keys} per cipher and salt start; long mixed runs; discovery; two sessions: salts are 8 octets, unique per key installation, advance by one; priv flag set; no scoped-PDU octets outside the ciphertext.",
+        text="Every interleaving of 4/5 leading steps over {5 request types, reply with boots change, garbage, time-out, set_keys} per cipher and salt start; long mixed runs; discovery; two sessions: salts are 8 octets, unique per key installation, advance by one; priv flag set; no scoped-PDU octets outside the ciphertext. Plus refused set_keys / refused over-sized requests in the alphabet, two or three interleaved privacy sessions with key installations in between, and the public User with an empty privacy password.",
         note="RNG seam only chooses where the counter starts",
         ref="DESIGN.md s.3 C14",
     ),
@@ -124,7 +124,7 @@ CHECKS = {
         engine="RSX",
         category="model_checking",
         technique="exhaustive enumeration of all i64 with 1-3 content octets and boundary bands, OIDs over boundary arcs, message grids; compared with an independent minimal encoder and decoded back by the library",
-        text="push_ber(x) equals the reference minimal encoding and the library's decoder returns x with nothing left, for every INTEGER of 1..3 content octets, +-2^16 bands around every +-2^(8k-1), +-2^(8k), OIDs, NULL, OCTET STRING fields and v1/v2c/v3 Get/GetNext/GetBulk message grids.",
+        text="push_ber(x) equals the reference minimal encoding and the library's decoder returns x with nothing left, for every INTEGER of 1..3 content octets, +-2^16 bands around every +-2^(8k-1), +-2^(8k), OIDs, NULL, OCTET STRING fields and v1/v2c/v3 Get/GetNext/GetBulk message grids. Plus a message size sweep up to the capacity and a round trip of the privacy layer (encrypt, then decrypt with a second key object).",
         note="reference codec rs/src/refber.rs shares no code with the crate",
         ref="DESIGN.md s.3 C15",
     ),
@@ -132,7 +132,7 @@ CHECKS = {
         engine="RSX",
         category="model_checking",
         technique="exhaustive metamorphic enumeration: every corpus element x every suffix over an alphabet; every over-long inner length",
-        text="For every successfully decoding element x and suffix s: from_ber(x||s) = (value(x), s); a complete element refused alone stays refused whatever follows; embedded elements are independent of what follows them; inner lengths running past the enclosing element, parents declared shorter than their children, and bytes after the top-level message are rejected.",
+        text="For every successfully decoding element x and suffix s: from_ber(x||s) = (value(x), s); a complete element refused alone stays refused whatever follows; embedded elements are independent of what follows them; inner lengths running past the enclosing element, parents declared shorter than their children, and bytes after the top-level message are rejected. Plus trailing bytes in the USM layer, dangling element headers in varbind lists, contextName contents, decrypt extent and msgData extent.",
         note="corpus built by the reference encoder",
         ref="DESIGN.md s.3 C16",
     ),
@@ -140,7 +140,7 @@ CHECKS = {
         engine="RSX+PYX",
         category="model_checking",
         technique="exhaustive enumeration of buffer operation sequences against a Vec-backed shadow model (Rust harness, Miri slice, loom on the pool) and an octet-by-octet request size sweep through the real sockets",
-        text="All operation sequences to depth 4/5 over push/push_u8/push_tag_len/push_tagged/skip+fill/reset/bookmark with boundary sizes vs a shadow model; request sizes swept octet by octet across 127/128, 255/256 and the capacity at each nesting level for every configuration: fits => complete, strictly decodable; does not fit => SnmpEncodeError, nothing sent, next request intact; padding octets inside the ciphertext independent of the session's history; loom interleavings of the pool; Miri slice in the thorough tier.",
+        text="All operation sequences to depth 4/5 over push/push_u8/push_tag_len/push_tagged/skip+fill/reset/bookmark with boundary sizes vs a shadow model; request sizes swept octet by octet across 127/128, 255/256 and the capacity at each nesting level for every configuration: fits => complete, strictly decodable; does not fit => SnmpEncodeError, nothing sent, next request intact; padding octets inside the ciphertext independent of the session's history; loom interleavings of the pool; Miri slice in the thorough tier. Plus padding independence of history, DES partial-block replies, truncated datagrams after a complete one, and a sweep of the number of shortest varbinds.",
         note="capacity is discovered, not hard-coded",
         ref="DESIGN.md s.3 C17",
     ),
@@ -148,7 +148,7 @@ CHECKS = {
         engine="PYX",
         category="fault_enumeration",
         technique="exhaustive enumeration of arrival schedules; async client on a virtual-time event loop (exact), sync client on the real clock with tolerance and re-confirmation",
-        text="All schedules of k stray datagrams at spacings from a small set, optionally followed by the matching reply before/after the deadline, x {v1,v2c,v3}: async must deliver iff the reply arrives by T and time out at exactly T (virtual time); sync must return by T + slack.",
+        text="All schedules of k stray datagrams at spacings from a small set, optionally followed by the matching reply before/after the deadline, x {v1,v2c,v3}: async must deliver iff the reply arrives by T and time out at exactly T (virtual time); sync must return by T + slack. Plus floods and oversize / other-version strays across the deadline, time-outs of 1.3 s and beyond 2^32 ns, call sequences on one session, no blocking sleep in the async client, and a new async session after a timed-out one.",
         note="sync half depends on the real clock (tolerance 0.5T, violations re-confirmed); includes multi-call sequences on one session and v3 session entry; the per-datagram re-armed time-out of the pinned code was repaired (8939f69, c1a09e7)",
         ref="DESIGN.md s.3 C18",
     ),
@@ -156,7 +156,7 @@ CHECKS = {
         engine="PYX",
         category="model_checking",
         technique="the real RPSPolicer.get_timeout as transition function: all K-call paths for small intervals, explicit-state BFS over phase states for larger ones, with inductive invariants",
-        text="All paths of 5/6 calls over a boundary gap alphabet for intervals 1,2,3,5 ns from 4 time offsets (window property checked directly); complete BFS over phases for intervals up to 1000 ns and depth-bounded for huge ones; constructor refusals; wait()/wait_sync() sleep == delay; one policer wait before every datagram in both clients.",
+        text="All paths of 5/6 calls over a boundary gap alphabet for intervals 1,2,3,5 ns from 4 time offsets (window property checked directly); complete BFS over phases for intervals up to 1000 ns and depth-bounded for huge ones; constructor refusals; wait()/wait_sync() sleep == delay; one policer wait before every datagram in both clients. Plus discovery sessions, EAGAIN injected at every send, a reply lost mid-walk with the iterator asked again, policer and limit_rps together, limit_rps alone for every version, and a policer that asks for a delay.",
         note="interval = the integer nanosecond interval the policer uses (sub-ns truncation of 1/rps not judged)",
         ref="DESIGN.md s.3 C19",
     ),
